@@ -267,6 +267,12 @@ func runC14(x *Exec) {
 						if w.Viol != nil {
 							return
 						}
+						if isWrite && kind == FaultErr && out.err != nil && perr == nil && plain != allRows {
+							// a clean error (request not applied) that failed the statement: nothing was committed, and
+							// SQLite rolled the transaction back, so the connection must be back at the old rows
+							x.Fail("C14-failed-write-visible", "%s: the statement failed (%v) and nothing was stored, but the same connection now shows %s instead of %s", desc, out.err, plain, allRows)
+							return
+						}
 						if perr == nil && plain != allRows && plain != afterRows {
 							x.Fail("C14-wrong-answer", "%s: the next SELECT on the same connection (no refresh) returns %s: neither %s nor %s", desc, plain, allRows, afterRows)
 							return
@@ -321,6 +327,10 @@ func runC14(x *Exec) {
 					fresh = strings.Replace(fresh, "[i:-4242,null | ", "[", 1)
 					if !isWrite && fresh != allRows {
 						x.Fail("C14-lost-after-fault", "%s: a new connection sees %s, committed data was %s", desc, fresh, allRows)
+						return
+					}
+					if isWrite && kind == FaultErr && out.err != nil && fresh != allRows {
+						x.Fail("C14-failed-write-published", "%s: the statement failed (%v) with nothing stored, yet after one more unrelated write on that connection a new connection sees %s instead of %s", desc, out.err, fresh, allRows)
 						return
 					}
 					if isWrite {
